@@ -50,6 +50,7 @@ type fileCfg struct {
 	MapRange  []string            // source text of map operands of range statements to iterate in key order
 	Touch     map[string][]string // function name -> racy selectors
 	HalfClose int                 // number of x.(*net.TCPConn) assertions that must be found
+	Dial      int                 // number of net.Dial(...) calls to route through vs.Dial (the harness supplies the connection)
 	Min       map[string]int      // construct -> minimum number of rewrites that must happen in this file
 }
 
@@ -83,7 +84,7 @@ var profile = []pkgCfg{
 	{
 		Dir: "backend/remote", Chan: true, Sync: true, Time: true, Accessor: "edremote",
 		Files: map[string]fileCfg{
-			"remote.go": {Min: map[string]int{"go": 1, "select": 1, "send": 1, "time": 1}},
+			"remote.go": {Dial: 1, Min: map[string]int{"go": 1, "select": 1, "send": 1, "time": 1, "dial": 1}},
 		},
 	},
 	{
@@ -301,6 +302,8 @@ func (r *rewriter) mapRange(n *ast.RangeStmt) ast.Stmt {
 	return &ast.ForStmt{Init: init, Cond: cond, Body: n.Body}
 }
 
+var notMapNames []string
+
 func contains(l []string, s string) bool {
 	for _, x := range l {
 		if x == s {
@@ -327,7 +330,7 @@ func (r *rewriter) rewriteRange(c *astutil.Cursor, n *ast.RangeStmt) {
 		body := append([]ast.Stmt{recv, brk}, n.Body.List...)
 		c.Replace(&ast.ForStmt{Init: define([]ast.Expr{id(rv)}, n.X), Body: &ast.BlockStmt{List: body}})
 		r.hit("rangechan")
-	case contains(r.cfg.MapRange, x) || contains(r.pkg.MapRange, x):
+	case (contains(r.cfg.MapRange, x) || contains(r.pkg.MapRange, x)) && !contains(notMapNames, x):
 		c.Replace(r.mapRange(n))
 		r.hit("maprange")
 	default:
@@ -528,6 +531,11 @@ func (r *rewriter) rewriteFile(src []byte) []byte {
 					n.Fun = sel("vs", "Close")
 					r.hit("close")
 				}
+				if r.cfg.Dial > 0 && r.src(n.Fun) == "net.Dial" && len(n.Args) == 2 {
+					n.Args = append([]ast.Expr{n.Fun}, n.Args...)
+					n.Fun = sel("vs", "Dial")
+					r.hit("dial")
+				}
 			case *ast.RangeStmt:
 				r.rewriteRange(c, n)
 			case *ast.TypeAssertExpr:
@@ -628,7 +636,11 @@ func main() {
 	mapsOnly := flag.Bool("maps-only", false, "only rewrite range-over-map loops of -pkgs into sorted-key iteration (verifshim/vsmaps); no sync/time/chan rewriting, no dependency on verifshim/vs")
 	pkgs := flag.String("pkgs", "controller", "maps-only: comma separated package directories")
 	extraMaps := flag.String("maps", "", "maps-only: comma separated source texts of additional range operands to treat as maps")
+	notMap := flag.String("notmap", "", "comma separated source texts of configured map-range operands that are NOT maps in this tree (bin/build-ed passes what the compiler rejected): they are iterated as they are")
 	flag.Parse()
+	if *notMap != "" {
+		notMapNames = strings.Split(*notMap, ",")
+	}
 	if *srcRoot == "" {
 		*srcRoot = *repo
 	}
